@@ -8,8 +8,10 @@ package vsched
 
 import (
 	"fmt"
+	"os"
 	"runtime"
 	"strings"
+	"time"
 )
 
 // Marker keeps imports alive in rewritten files.
@@ -167,9 +169,21 @@ func (s *Sched) Run(main func()) {
 	s.cur = t
 	go s.threadBody(t, main)
 	t.wake <- struct{}{}
-	<-s.endCh
+	select {
+	case <-s.endCh:
+	case <-time.After(StallTimeout):
+		// some thread is blocked outside the scheduler (an uninstrumented blocking
+		// operation in the code under test): nothing can be concluded, and the
+		// goroutine cannot be recovered - give the whole worker process up
+		fmt.Fprintf(os.Stderr, "ENGINE-ERROR: execution stalled for %v at step %d: a thread is blocked outside the scheduler (uninstrumented blocking operation?)\n", StallTimeout, s.Steps)
+		os.Exit(3)
+	}
 	s.ended = true
 }
+
+// StallTimeout bounds one execution in wall-clock time; it is a liveness guard
+// of the engine, never an oracle.
+var StallTimeout = 60 * time.Second
 
 // Teardown unwinds every thread that is still parked. Must be called after
 // Run (the harness inspects the end state in between).
